@@ -8,7 +8,7 @@
    Definitions only; proofs are in Proofs/C03Proofs.v. *)
 From Coq Require Import String Ascii.
 From Coq Require Import List Arith Bool.
-Require Import TT.Model.Str TT.Model.Pipeline.
+Require Import TT.Model.Str TT.Model.Pipeline TT.Model.C03RetType.
 Import ListNotations.
 Local Open Scope char_scope.
 Local Open Scope list_scope.
@@ -98,11 +98,11 @@ Definition analyze (root : str) (l : layout) : list cmd := analyze_files (cache 
 
 (* ---- commands.ts: one AsyncFn per CommandInfo, both modes ---- *)
 Record wrapper := { w_invoke : str; w_ret : str }.
-Definition promise_of (f : fn_def) : str := L "Promise<" ++ ret_ts f ++ L ">".
+Definition promise_of (f : fn_def) : str := L "Promise<" ++ rt_ret_ts f ++ L ">".
 Definition emit (cmds : list cmd) : list wrapper :=
-  map (fun c => {| w_invoke := fn_name (c_fn c); w_ret := promise_of (c_fn c) |}) cmds.
+  map (fun c => {| w_invoke := unraw (fn_name (c_fn c)); w_ret := promise_of (c_fn c) |}) cmds.
 Definition wobs (w : wrapper) : str * str := (w_invoke w, w_ret w).
 
 (* library-level observation of one CommandInfo: name, file_path, return_type, is_async *)
 Definition cmd_obs (root : str) (c : cmd) : str * str * str * bool :=
-  (fn_name (c_fn c), path_string root (c_file c), ret_string (c_fn c), fn_async (c_fn c)).
+  (unraw (fn_name (c_fn c)), path_string root (c_file c), ret_string (c_fn c), fn_async (c_fn c)).
